@@ -7,7 +7,7 @@ SD=$(readlink -f "$1")
 WT=${2:-/tmp/wt/confirm.$$}
 export GOFLAGS=-mod=mod GOPROXY=off GOSUMDB=off GOTOOLCHAIN=local
 GO=go1.26.8
-git -C /repo worktree add -q --detach "$WT" "$(cat /root/.vp/repo_root_sha 2>/dev/null || git -C /repo rev-list --max-parents=0 HEAD)" 2>/dev/null || git -C /repo worktree add -q --detach "$WT" $(git -C /repo rev-list --max-parents=0 HEAD)
+BASE=${BASE:-$(git -C /repo rev-list --max-parents=0 HEAD)}; git -C /repo worktree add -q --detach "$WT" "$BASE"
 cd "$WT" || exit 2
 res() { echo "{\"seed\":\"$SD\",\"applies\":$1,\"builds\":$2,\"suite_passes\":$3,\"demo_fails_with\":$4,\"demo_passes_without\":$5,\"demo_pkg\":\"$6\"}"; }
 if ! git apply "$SD/patch.diff" 2>/dev/null; then res false false false false false ""; cd /; git -C /repo worktree remove --force "$WT"; exit 1; fi
